@@ -3,7 +3,13 @@
     violation of that rule (sa/mutations.py);
 (2) invariance: the (rule key, status) set of the property must be identical on a copy of the tree in which every module
     has been replaced by ast.unparse(ast.parse(source)) -- comments, layout, quoting and line numbers change, behaviour
-    does not.  A difference means a rule depends on the text's form: a false alarm (or a blind spot) in waiting."""
+    does not; and no instance may become fail/undecided (no anchor lost) on copies in which EVERY if/else has its arms
+    swapped, every else after a terminating body is flattened, every `if a and b:` is split into nested ifs
+    (sa/transforms.py).  A difference means a rule depends on the text's form: a false alarm (or a blind spot) in waiting;
+(3) benign refactorings: every kept behaviour-preserving patch (/verif/benign/*/p*.diff, written by sub-agents who were
+    asked for clean-up edits of the code that implements a property; the pinned suite passes with each) that touches a
+    file this property is anchored in, applied to a scratch copy, must produce NO new fail/undecided instance and no
+    lost anchor.  A patch that no longer applies to the working tree is skipped."""
 from __future__ import annotations
 
 import ast
@@ -36,9 +42,85 @@ def _invariance(prop: str) -> dict:
                     n += 1
         a, b = keys(None), keys(tmp)
         diff = sorted(set(a) ^ set(b))
-        return {"modules_reformatted": n, "instances": len(a), "differences": [list(x) for x in diff[:10]]}
+        out = {"modules_reformatted": n, "instances": len(a), "differences": [list(x) for x in diff[:10]], "structural": {}}
     finally:
         shutil.rmtree(tmp, ignore_errors=True)
+    # structural transformations of the whole tree: instance keys may change, but nothing may become fail/undecided
+    from . import transforms
+    for kind in ("swap-if-else", "else-after-return", "split-and"):
+        tmp = tempfile.mkdtemp(prefix=f"verif-invariance-{prop}-")
+        try:
+            shutil.copytree(os.path.join(repo_root(), "rope"), os.path.join(tmp, "rope"), ignore=shutil.ignore_patterns("__pycache__"))
+            sites = transforms.transform_tree(tmp, kind)
+            try:
+                new = [list(x) for x in sorted(set(keys(tmp)) - set(a)) if x[1] != "ok"]
+            except Exception as e:
+                new = [[f"{type(e).__name__}: {str(e)[:160]}", "analysis-error"]]
+            out["structural"][kind] = {"sites": sites, "new_alarms": new[:5]}
+            out["differences"] += new[:5]
+        finally:
+            shutil.rmtree(tmp, ignore_errors=True)
+    return out
+
+
+def _anchor_files(prop: str) -> set:
+    import json
+    from . import report
+    for line in open(os.path.join(report.VERIF, "properties.jsonl"), encoding="utf-8"):
+        d = json.loads(line)
+        if d.get("id") == prop:
+            return set((d.get("anchors") or {}).get("files") or [])
+    return set()
+
+
+def _benign(prop: str) -> dict:
+    import re
+    import subprocess
+    from . import report
+    from .core import repo_root
+    from .run import Ctx, load_rules
+
+    root = os.path.join(report.VERIF, "benign")
+    out = {"patches": 0, "skipped": 0, "alarms": []}
+    if not os.path.isdir(root):
+        return out
+    anchors = _anchor_files(prop)
+
+    def keys(r):
+        ctx = Ctx("quick", 0, root=r)
+        res = report.Results(prop)
+        load_rules(prop).check(ctx, res)
+        return {(i.key, i.status) for i in res.instances}
+
+    base = None
+    for d in sorted(os.listdir(root)):
+        for f in sorted(os.listdir(os.path.join(root, d))):
+            if not f.endswith(".diff"):
+                continue
+            path = os.path.join(root, d, f)
+            touched = set(re.findall(r"^\+\+\+ b/(\S+)", open(path, encoding="utf-8").read(), re.M))
+            if not (d.startswith(prop) or touched & anchors):
+                continue
+            tmp = tempfile.mkdtemp(prefix=f"verif-benign-{prop}-")
+            try:
+                shutil.copytree(os.path.join(repo_root(), "rope"), os.path.join(tmp, "rope"), ignore=shutil.ignore_patterns("__pycache__"))
+                p = subprocess.run(["patch", "-p1", "-s", "-i", path], cwd=tmp, capture_output=True, text=True)
+                if p.returncode != 0:
+                    out["skipped"] += 1
+                    continue
+                out["patches"] += 1
+                if base is None:
+                    base = keys(None)
+                try:
+                    new = keys(tmp)
+                    bad = sorted(k for k, st in new - base if st != report.OK)
+                    if bad:
+                        out["alarms"].append(f"{d}/{f}: {bad[:3]}")
+                except Exception as e:
+                    out["alarms"].append(f"{d}/{f}: {type(e).__name__}: {str(e)[:120]}")
+            finally:
+                shutil.rmtree(tmp, ignore_errors=True)
+    return out
 
 
 def run(prop: str, seed: int) -> dict:
@@ -49,4 +131,8 @@ def run(prop: str, seed: int) -> dict:
     out["invariance_under_reformatting"] = inv
     if inv["differences"]:
         out.setdefault("failed", []).append(f"verdicts differ on the reformatted tree: {inv['differences'][:3]}")
+    ben = _benign(prop)
+    out["benign_refactorings"] = ben
+    for a in ben["alarms"]:
+        out.setdefault("failed", []).append(f"alarm on a behaviour-preserving refactoring: {a}")
     return out
